@@ -175,7 +175,12 @@ def _run_on_vloop(main: Callable[[VLoop], Any]) -> Any:
     loop.max_time = 1e9
     asyncio.set_event_loop(loop)
     try:
-        return loop.run_until_complete(main(loop))
+        try:
+            return loop.run_until_complete(main(loop))
+        except RuntimeError:
+            if not loop.deadlock:  # VLoop stops itself when nothing can ever run again
+                raise
+            return None
     finally:
         try:
             pending = [t for t in asyncio.all_tasks(loop) if not t.done()]
@@ -224,6 +229,7 @@ def _direct(g: list[dict], ops: list[list] | None, chooser: Callable | None) -> 
                     objs = [fn.keywords.get(f"p{j}") for j in range(len(reqs))]
                 outcome = w.outcome(None, objs)
                 rec["objs"] = [getattr(o, "serial", None) for o in objs]
+                rec["obj_rids"] = [getattr(o, "rid", None) for o in objs]
             except BaseException as e:  # noqa: BLE001 - classified; cancellation re-raised
                 outcome = w.outcome(e, None)
                 if isinstance(e, asyncio.CancelledError):
@@ -412,4 +418,6 @@ def run_workflow(case: dict) -> tuple[list[str], list[list], dict]:
             info["all_opened"] = not w.gates
 
     _run_on_vloop(main)
+    if info["result"] == "pending" or info["result"] == "error:cancelled":
+        info["result"] = "stuck"  # the loop found nothing runnable and no gate to open
     return lines, ops, info
